@@ -250,7 +250,8 @@ func cloneRow(r sqlittle.Row) sqlittle.Row {
 }
 
 func runC18(r *ev.Run) {
-	r.Rule = "(S) every value of a 95-value grid (int64/float64 extremes, numeric-looking and malformed text, both time formats, empty and 5000-byte blobs) x every supported destination type at every column position 0..2 incl. positions past the row width, unsupported destinations, nil destinations, ScanString/ScanStringString/ScanStrings, argument counts 0..width+2: no panic, result and error-ness equal a reference model of the documented conversions, row unchanged; (S') every cell of every row that the read pipeline delivers from databases written by SQLite (all C01 scripts plus 220 tables with a column added by ALTER TABLE: 11 declared types x 20 DEFAULT literals, read from rows stored before) x every destination type: the cell is one of the five documented Go types, no panic, documented conversion; (H) every history of depth <=4 (5 thorough) over {scan blob/text row into []byte, into string, mutate every scanned slice, re-read on the same handle, re-read on a fresh handle, close, overwrite the file, verify scanned values} on a real file with inline and overflowed blobs: re-reads always equal the baseline and scanned values stay what they were. non-trivial = conversions between different classes / histories containing a mutation or close"
+	r.Rule = "(S) every value of a 95-value grid (int64/float64 extremes, numeric-looking and malformed text, both time formats, empty and 5000-byte blobs) x every supported destination type at every column position 0..2 incl. positions past the row width, unsupported destinations, nil destinations, ScanString/ScanStringString/ScanStrings, argument counts 0..width+2: no panic, result and error-ness equal a reference model of the documented conversions, row unchanged; (S') every cell of every row that the read pipeline delivers from databases written by SQLite (all C01 scripts plus 220 tables with a column added by ALTER TABLE: 11 declared types x 20 DEFAULT literals, read from rows stored before) x every destination type: the cell is one of the five documented Go types, no panic, documented conversion; (H) every history of depth <=4 (5 thorough) over {scan blob/text row into []byte, into string, mutate every scanned slice, re-read on the same handle, re-read on a fresh handle, close, overwrite the file, verify scanned values} on a real file with inline and overflowed blobs: re-reads always equal the baseline and scanned values stay what they were. non-trivial = conversions between different classes / histories containing a mutation or close; every ordered pair of short text / blob values scanned one after the other into the same []byte variable: what the first Scan delivered does not change"
+	defer c18Reuse(r)
 	grid := c18Grid()
 	dests := c18Dests()
 	r.Set("grid_values", len(grid))
@@ -570,4 +571,57 @@ func c18HistoriesOn(r *ev.Run, dir string, imgNo int, img []byte) {
 			h.Close()
 		}
 	})
+}
+
+// c18Reuse: one destination variable scanned into twice. What the first Scan delivered is an independent copy:
+// it stays what it was when the variable is used for the next row. Every ordered pair of text / blob values of
+// the grid x destinations []byte and string.
+func c18Reuse(r *ev.Run) {
+	var vals []interface{}
+	for _, v := range c18Grid() {
+		switch x := v.(type) {
+		case string:
+			if len(x) <= 64 {
+				vals = append(vals, v)
+			}
+		case []byte:
+			if len(x) <= 64 {
+				vals = append(vals, v)
+			}
+		}
+	}
+	n := 0
+	for _, v1 := range vals {
+		for _, v2 := range vals {
+			n++
+			r.Eval(1)
+			r.Trans(2)
+			var b []byte
+			if err := (sqlittle.Row{v1}).Scan(&b); err != nil {
+				continue
+			}
+			kept := b
+			want := string(kept)
+			if err := (sqlittle.Row{v2}).Scan(&b); err != nil {
+				continue
+			}
+			if string(kept) != want {
+				r.Violation("C18:reused-destination:bytes", fmt.Sprintf("Scan(&b) of %s, then Scan(&b) of %s: the bytes the first Scan delivered changed from %q to %q", VS(v1), VS(v2), want, kept), map[string]interface{}{"first": VS(v1), "second": VS(v2)})
+				return
+			}
+			// and the row the value came from is not written to through the destination
+			row := sqlittle.Row{v1}
+			var b2 []byte
+			if err := row.Scan(&b2); err == nil && len(b2) > 0 {
+				b2[0] ^= 0xff
+				var b3 []byte
+				row.Scan(&b3)
+				if string(b3) != want {
+					r.Violation("C18:reused-destination:row", fmt.Sprintf("writing to the []byte Scan delivered for %s changes the row", VS(v1)), nil)
+					return
+				}
+			}
+		}
+	}
+	r.Set("reused_destination_pairs", n)
 }
